@@ -129,6 +129,7 @@ func replayCase(ctx *core.Ctx, fam string, tc tlcCase) {
 			ctx.Distinct(fam + "|" + src + "|" + fmt.Sprint(env.Vars) + fmt.Sprint(env.IJ))
 		}
 		cs.Exp = tc.R.Exp.T + ":" + tc.R.Exp.S
+		checkEval(ctx, cs)
 		feature := ""
 		switch {
 		case cs.Obs.CompileErr != "":
